@@ -29,6 +29,12 @@ def step (st : St) : List String → St × String
   | ["kg", kgc, k] => (st, toString (KeySpace.keyGroup (natOr kgc) (hexOr k)))
   | ["ri", kgc, n, k] => rangeIdx st (natOr kgc) (natOr n) (hexOr k)
   | ["route", kgc, n, k] => rangeIdx st (natOr kgc) (natOr n) (hexOr k)
+  | ["fanout", kgc, n, ks] =>
+    -- one source record whose KeyEvent result has several keys: every keyed event goes to the owner of ITS key
+    let (st, outs) := (ks.splitOn ",").foldl (fun (acc : St × List String) k =>
+      let (st', o) := rangeIdx acc.1 (natOr kgc) (natOr n) (hexOr k)
+      (st', acc.2 ++ [o])) (st, [])
+    (st, joinWith "," outs)
   | ["hashvec", _, _, expected] => (st, expected)   -- spec: published MurmurHash3-32 vectors (C05.murmur_vectors)
   | ["partition", _, _] => (st, "ok")              -- spec: C05.ranges_partition / ranges_balanced
   | ["ownsroute", _, _, _] => (st, "ok")           -- spec: C05.owns_encoded / rangeIndex_unique
